@@ -476,6 +476,34 @@ impl<MutexType: RawMutex, T> GenericMutex<MutexType, T> {
     }
 }
 
+#[cfg(futures_intrusive_verif)]
+impl<MutexType: RawMutex, T> GenericMutex<MutexType, T> {
+    /// Reports the internal state to the external verification harness
+    pub fn verif_snapshot(&self, f: &mut dyn FnMut(crate::verif::Item<'_>)) {
+        use crate::verif::{list_links, Entry, Item};
+        let state = self.state.lock();
+        f(Item::Scalar("is_fair", state.is_fair as u64));
+        f(Item::Scalar("is_locked", state.is_locked as u64));
+        let mut report = |queue: u8, node: &ListNode<WaitQueueEntry>| {
+            f(Item::Entry(Entry {
+                queue,
+                addr: node as *const _ as usize,
+                state: match node.state {
+                    PollState::New => 0,
+                    PollState::Waiting => 1,
+                    PollState::Notified => 2,
+                    PollState::Done => 3,
+                },
+                waker: node.task.as_ref(),
+                num: 0,
+                links: list_links(node),
+            }))
+        };
+        state.waiters.verif_for_each(&mut |node| report(0, node));
+        state.waiters.verif_for_each_rev(&mut |node| report(0x80, node));
+    }
+}
+
 // Export a non thread-safe version using NoopLock
 
 /// A [`GenericMutex`] which is not thread-safe.
